@@ -237,12 +237,1152 @@ Qed.
 
 Lemma notify_nth s q w pc :
   nth_error (workers (notify s q)) w = Some pc ->
-  exists pc0, nth_error (workers s) w = Some pc0 /\ (pc = pc0 \/ (w = q /\ pc0 = WPopBlocked false /\ pc = WPopBlocked true)).
+  exists pc0, nth_error (workers s) w = Some pc0 /\ pc = (if Nat.eqb w q then wake pc0 else pc0).
 Proof.
-  rewrite notify_workers. destruct (nth_error (workers s) q) as [w0|] eqn:E; [|eauto].
-  intros H. apply nth_error_set_nth in H as [(<- & -> & _)|(Hne & H)]; [|eauto].
-  exists w0. split; [exact E|]. destruct w0 as [| | | | |[]| | |]; cbn; auto.
+  rewrite notify_workers. destruct (nth_error (workers s) q) as [w0|] eqn:E.
+  - intros H. apply nth_error_set_nth in H as [(<- & -> & _)|(Hne & H)].
+    + exists w0. rewrite Nat.eqb_refl. auto.
+    + exists pc. split; [exact H|]. destruct (Nat.eqb_spec w q); [congruence|reflexivity].
+  - intros H. exists pc. split; [exact H|]. destruct (Nat.eqb_spec w q) as [->|]; [congruence|reflexivity].
+Qed.
+
+Lemma wake_cases w : wake w = w \/ (w = WPopBlocked false /\ wake w = WPopBlocked true).
+Proof. destruct w as [| | | | |[]| | |]; cbn; auto. Qed.
+
+Lemma wake_holds w0 w q : holdsW w0 (wake w) q = holdsW w0 w q.
+Proof. destruct w as [| | | | |[]| | |]; reflexivity. Qed.
+
+(* what the woken list looks like, by cases on the resulting pc *)
+Lemma notify_nth_inv s q w pc :
+  nth_error (workers (notify s q)) w = Some pc -> pc <> WPopBlocked true ->
+  nth_error (workers s) w = Some pc /\ (pc = WPopBlocked false -> w <> q).
+Proof.
+  intros H Hne. apply notify_nth in H as (pc0 & Hn & E). destruct (Nat.eqb_spec w q) as [->|Hwq].
+  - destruct (wake_cases pc0) as [Ew|[-> Ew]]; rewrite Ew in E; subst pc; [|congruence].
+    split; [exact Hn|]. intros ->. cbn in Ew. discriminate.
+  - subst. auto.
 Qed.
 
 Lemma notify_len s q : length (workers (notify s q)) = length (workers s).
 Proof. rewrite notify_workers. destruct (nth_error (workers s) q); [apply set_nth_length|reflexivity]. Qed.
+
+(* ------------------------------------------------------------------------------------------ *)
+(* group 1: accounting (nothing lost, nothing duplicated)                                      *)
+
+Definition bound_ok (n : nat) (pc : ppc) : Prop :=
+  pushed pc <= n /\ (match pc with PFetch _ => True | PNotify _ _ | PUnlock _ _ => True | _ => pushed pc < n end).
+
+Record Acct (s : st) : Prop := {
+  A_acct : Permutation (enq s) (map fst (executed s) ++ flat_map inflight (workers s) ++ queued s);
+  A_nodup : NoDup (enq s);
+  A_mem : forall p j, In (p, j) (enq s) <->
+            exists x n pc, p = S x /\ nth_error (prods s) x = Some (n, pc) /\ j < pushed pc;
+  A_bound : forall x n pc, nth_error (prods s) x = Some (n, pc) -> bound_ok n pc
+}.
+
+Lemma set_nth_oob {A} (l : list A) i x : length l <= i -> set_nth i x l = l.
+Proof. revert i; induction l as [|y r IH]; intros [|i] H; cbn in *; try lia; auto. f_equal. apply IH. lia. Qed.
+
+Lemma queued_set_same s q x :
+  qitems x = qitems (getq s q) -> flat_map qitems (set_nth q x (queues s)) = queued s.
+Proof.
+  intros E. destruct (Nat.lt_ge_cases q (nq s)) as [Hq|Hq].
+  - eapply flat_map_set_nth_same; eauto. now apply getq_nth_error.
+  - unfold queued. now rewrite set_nth_oob.
+Qed.
+
+Lemma inflight_set_same s w p p0 :
+  nth_error (workers s) w = Some p0 -> inflight p = inflight p0 ->
+  flat_map inflight (set_nth w p (workers s)) = flat_map inflight (workers s).
+Proof. intros. eapply flat_map_set_nth_same; eauto. Qed.
+
+(* a step that moves no item *)
+Lemma acct_frame s s' :
+  Acct s -> enq s' = enq s -> executed s' = executed s ->
+  flat_map inflight (workers s') = flat_map inflight (workers s) -> queued s' = queued s ->
+  (prods s' = prods s \/
+   exists x n pc pc', nth_error (prods s) x = Some (n, pc) /\ prods s' = set_nth x (n, pc') (prods s) /\
+                      pushed pc' = pushed pc /\ bound_ok n pc') ->
+  Acct s'.
+Proof.
+  intros [H1 H2 H3 H4] Ee Ex Ei Eq Hp. constructor.
+  - now rewrite Ee, Ex, Ei, Eq.
+  - now rewrite Ee.
+  - intros p j. rewrite Ee, H3. destruct Hp as [->|(x & n & pc & pc' & Hn & -> & Hpu & _)]; [reflexivity|].
+    symmetry. eapply mem_same_pushed; eauto.
+  - destruct Hp as [->|(x & n & pc & pc' & Hn & -> & Hpu & Hb)]; [exact H4|].
+    intros x0 n0 pc0 Hn0. apply nth_error_set_nth in Hn0 as [(<- & E & _)|(Hne & Hn0)]; [|eauto].
+    injection E as -> ->. exact Hb.
+Qed.
+
+Ltac st_simpl :=
+  unfold worker_tid, nq, nprods, queued, all_prods_done in *;
+  cbn [race next queues mainpc prods workers enq late executed
+       set_queue set_main set_prod set_worker set_next add_enq add_executed
+       qown qitems qstop lockq unlockq] in *;
+  rewrite ?set_nth_length in *.
+
+Lemma acct_init rc k counts : Acct (init rc k counts).
+Proof. destruct (inv_init rc k counts). constructor; auto. Qed.
+
+Lemma step_main_acct s s' evs : Acct s -> step_main s = Some (s', evs) -> Acct s'.
+Proof.
+  intros A H. unfold step_main in H. destruct (mainpc s) as [i|d q|d q|d q|i|] eqn:Em.
+  - destruct (nth_error (workers s) i) as [[]|] eqn:Ew; try discriminate. injection H as <- <-.
+    eapply acct_frame; eauto; st_simpl; auto.
+    eapply inflight_set_same; eauto.
+  - destruct (q_free s q && (negb d || all_prods_done s)) eqn:G; [|discriminate]. injection H as <- <-.
+    eapply acct_frame; eauto; st_simpl; auto. now apply queued_set_same.
+  - injection H as <- <-. destruct (notify_other s q) as (_ & _ & Eq & _ & Ep & Ee & _ & Ex).
+    eapply acct_frame; eauto; st_simpl; auto.
+    + apply notify_inflight.
+    + now rewrite Eq.
+  - injection H as <- <-. eapply acct_frame; eauto; st_simpl; auto. now apply queued_set_same.
+  - destruct (nth_error (workers s) i) as [[]|]; try discriminate. injection H as <- <-.
+    eapply acct_frame; eauto; st_simpl; auto.
+  - discriminate.
+Qed.
+
+Lemma step_spur_acct w s s' evs : Acct s -> step_spur w s = Some (s', evs) -> Acct s'.
+Proof.
+  intros A H. unfold step_spur in H.
+  destruct (nth_error (workers s) w) as [[| | | | |[]| | |]|] eqn:Ew; try discriminate. injection H as <- <-.
+  eapply acct_frame; eauto; st_simpl; auto. eapply inflight_set_same; eauto.
+Qed.
+
+(* a producer pushes its item j on queue q *)
+Lemma acct_push s x n pc pc' q o b lt j :
+  Acct s -> nth_error (prods s) x = Some (n, pc) -> pushed pc = j -> j < n ->
+  pushed pc' = S j -> bound_ok n pc' -> q < nq s ->
+  Acct (set_prod (add_enq (set_queue s q {| qown := o; qitems := qitems (getq s q) ++ [(S x, j)]; qstop := b |})
+                          (S x, j) lt) x (n, pc')).
+Proof.
+  intros [H1 H2 H3 H4] En Hpu Hj Hpu' Hb' Hq.
+  assert (Hx : x < length (prods s)) by (eapply nth_error_lt; eauto).
+  assert (Hfresh : ~ In (S x, j) (enq s)).
+  { intros Hin. apply H3 in Hin as (x0 & n0 & pc0 & E & Hn0 & Hl). injection E as <-.
+    rewrite En in Hn0. injection Hn0 as <- <-. lia. }
+  constructor; st_simpl.
+  - destruct (flat_map_set_nth qitems (queues s) q (getq s q) (getq_nth_error s q Hq)) as (R & P1 & P2).
+    rewrite (P2 _). cbn [qitems]. unfold queued in H1. rewrite P1 in H1. rewrite H1.
+    rewrite <- !app_assoc. rewrite !(app_assoc (map fst (executed s))).
+    apply Permutation_app_head.
+    (* (ex ++ infl ++ items ++ R) ++ [it]  ~  ex ++ infl ++ (items ++ [it]) ++ R *)
+    apply Permutation_app_head. apply Permutation_app_comm.
+  - apply NoDup_app_singleton; auto.
+  - intros p j0. rewrite in_app_iff, H3. cbn [In]. split.
+    + intros [(x0 & n0 & pc0 & -> & Hn0 & Hl)|[E|[]]].
+      * destruct (Nat.eq_dec x x0) as [<-|Hne].
+        -- rewrite En in Hn0. injection Hn0 as <- <-.
+           exists x, n, pc'. rewrite nth_error_set_nth_eq by exact Hx. repeat split; auto; lia.
+        -- exists x0, n0, pc0. rewrite nth_error_set_nth_neq by exact Hne. auto.
+      * injection E as <- <-. exists x, n, pc'. rewrite nth_error_set_nth_eq by exact Hx.
+        repeat split; auto; lia.
+    + intros (x0 & n0 & pc0 & -> & Hn0 & Hl).
+      apply nth_error_set_nth in Hn0 as [(<- & E & _)|(Hne & Hn0)].
+      * injection E as -> ->. rewrite Hpu' in Hl.
+        destruct (Nat.eq_dec j0 j) as [->|Hj0]; [right; left; reflexivity|].
+        left. exists x, n, pc. repeat split; auto. lia.
+      * left. exists x0, n0, pc0. auto.
+  - intros x0 n0 pc0 Hn0. apply nth_error_set_nth in Hn0 as [(<- & E & _)|(Hne & Hn0)]; [|eauto].
+    injection E as -> ->. exact Hb'.
+Qed.
+
+Lemma step_prod_acct x s s' evs : Acct s -> step_prod x s = Some (s', evs) -> Acct s'.
+Proof.
+  intros A H. unfold step_prod in H.
+  destruct (nth_error (prods s) x) as [[n pc]|] eqn:En; [|discriminate].
+  pose proof (A_bound s A _ _ _ En) as [Hb1 Hb2].
+  destruct pc as [j|j start i|j start|j q|j q]; cbn in Hb1, Hb2.
+  - (* PFetch *)
+    destruct (Nat.ltb_spec j n) as [Hj|]; [|discriminate]. cbn [andb] in H.
+    destruct (Nat.ltb 0 (nq s) && negb match mainpc s with MSpawn _ => true | _ => false end); [|discriminate].
+    injection H as <- <-. eapply acct_frame; eauto; st_simpl; auto.
+    right. exists x, n, (PFetch j), (PTry j (next s mod length (queues s)) 0). repeat split; auto.
+  - (* PTry *)
+    destruct (q_free s ((start + i) mod nq s)) eqn:G.
+    + apply q_free_spec in G as [Hq _]. unfold do_push in H. injection H as <- <-.
+      eapply acct_push; eauto;
+        destruct (match qitems (getq s ((start + i) mod nq s)) with [] => true | _ :: _ => false end);
+        try split; cbn; auto; lia.
+    + injection H as <- <-. eapply acct_frame; eauto; st_simpl; auto.
+      right. exists x, n, (PTry j start i). eexists. split; [exact En|]. split; [reflexivity|].
+      match goal with |- context [if ?b then _ else _] => destruct b end;
+        (split; [reflexivity|split; cbn; auto; lia]).
+  - (* PPushLock *)
+    destruct (q_free s start) eqn:G; [|discriminate].
+    apply q_free_spec in G as [Hq _]. unfold do_push in H. injection H as <- <-.
+    eapply acct_push; eauto;
+      destruct (match qitems (getq s start) with [] => true | _ :: _ => false end);
+      try split; cbn; auto; lia.
+  - (* PNotify *)
+    injection H as <- <-. destruct (notify_other s q) as (_ & _ & Eq & _ & Ep & Ee & _ & Ex).
+    eapply acct_frame; eauto; st_simpl; auto.
+    + apply notify_inflight.
+    + now rewrite Eq.
+    + right. rewrite Ep. exists x, n, (PNotify j q), (PUnlock j q). repeat split; auto.
+  - (* PUnlock *)
+    injection H as <- <-. eapply acct_frame; eauto; st_simpl; auto.
+    + now apply queued_set_same.
+    + right. exists x, n, (PUnlock j q), (PFetch (S j)). repeat split; auto.
+Qed.
+
+(* a worker takes the front item of queue q *)
+Lemma acct_pop s w p0 p q it r o b :
+  Acct s -> nth_error (workers s) w = Some p0 -> inflight p0 = [] -> inflight p = [it] ->
+  q < nq s -> qitems (getq s q) = it :: r ->
+  Acct (set_worker (set_queue s q {| qown := o; qitems := r; qstop := b |}) w p).
+Proof.
+  intros [H1 H2 H3 H4] Ew Hi0 Hi Hq Eit. constructor; st_simpl; auto.
+  destruct (flat_map_set_nth qitems (queues s) q (getq s q) (getq_nth_error s q Hq)) as (R & P1 & P2).
+  destruct (flat_map_set_nth inflight (workers s) w p0 Ew) as (R' & P3 & P4).
+  rewrite (P2 _), (P4 _). cbn [qitems]. unfold queued in H1. rewrite P1, P3, Eit, Hi0 in H1. rewrite H1, Hi.
+  apply Permutation_app_head. cbn. symmetry. apply Permutation_middle.
+Qed.
+
+(* a worker completes the item it holds *)
+Lemma acct_exec s w p0 p it :
+  Acct s -> nth_error (workers s) w = Some p0 -> inflight p0 = [it] -> inflight p = [] ->
+  Acct (set_worker (add_executed s it w) w p).
+Proof.
+  intros [H1 H2 H3 H4] Ew Hi0 Hi. constructor; st_simpl; auto.
+  destruct (flat_map_set_nth inflight (workers s) w p0 Ew) as (R' & P3 & P4).
+  rewrite (P4 _), Hi. rewrite P3, Hi0 in H1. rewrite H1. rewrite map_app. cbn.
+  rewrite <- !app_assoc. reflexivity.
+Qed.
+
+(* a worker step that moves no item: its pc changes between states with the same item in flight,
+   and possibly one queue's lock/stop fields change *)
+Lemma acct_worker_frame s s' w p0 p :
+  Acct s -> nth_error (workers s) w = Some p0 -> inflight p = inflight p0 ->
+  enq s' = enq s -> executed s' = executed s -> prods s' = prods s ->
+  workers s' = set_nth w p (workers s) -> queued s' = queued s -> Acct s'.
+Proof.
+  intros A Ew Hi Ee Ex Ep Ewk Eq. eapply acct_frame; eauto.
+  rewrite Ewk. eapply inflight_set_same; eauto.
+Qed.
+
+Lemma pop_acquired_acct s w p0 :
+  Acct s -> nth_error (workers s) w = Some p0 -> inflight p0 = [] -> w < nq s -> Acct (pop_acquired s w).
+Proof.
+  intros A Ew Hi Hw. unfold pop_acquired. destruct (qitems (getq s w)) as [|it r] eqn:Eit.
+  - eapply acct_worker_frame with (w := w) (p0 := p0)
+      (p := if qstop (getq s w) then WPopUnlock None else WPopWait); eauto; st_simpl; auto.
+    + destruct (qstop (getq s w)); now rewrite Hi.
+    + apply queued_set_same. cbn. now rewrite Eit.
+  - eapply acct_pop; eauto. reflexivity.
+Qed.
+
+Lemma step_worker_acct w s s' evs : Acct s -> step_worker w s = Some (s', evs) -> Acct s'.
+Proof.
+  intros A H. unfold step_worker in H.
+  destruct (nth_error (workers s) w) as [pc|] eqn:Ew; [|discriminate].
+  destruct pc as [|i|i q t| | |[]|t|t|]; try discriminate.
+  - (* WScan *)
+    destruct (q_free s ((w + i) mod nq s)) eqn:G.
+    + apply q_free_spec in G as [Hq _].
+      destruct (qitems (getq s ((w + i) mod nq s))) as [|it r] eqn:Eit; injection H as <- <-.
+      * eapply acct_worker_frame with (w := w) (p0 := WScan i)
+          (p := WScanUnlock i ((w + i) mod nq s) None); eauto; st_simpl; auto.
+        apply queued_set_same. cbn. now rewrite Eit.
+      * eapply acct_pop; eauto; reflexivity.
+    + injection H as <- <-.
+      eapply acct_worker_frame with (w := w) (p0 := WScan i)
+        (p := if Nat.eqb (S i) (nq s) then WPopLock else WScan (S i)); eauto; st_simpl; auto.
+      match goal with |- context [if ?b then _ else _] => destruct b end; reflexivity.
+  - (* WScanUnlock *)
+    injection H as <- <-.
+    eapply acct_worker_frame with (w := w) (p0 := WScanUnlock i q t)
+      (p := match t with Some it => WExec it | None => if Nat.eqb (S i) (nq s) then WPopLock else WScan (S i) end);
+      eauto; st_simpl; auto.
+    + destruct t; [reflexivity|]. match goal with |- context [if ?b then _ else _] => destruct b end; reflexivity.
+    + now apply queued_set_same.
+  - (* WPopLock *)
+    destruct (q_free s w) eqn:G; [|discriminate]. apply q_free_spec in G as [Hq _].
+    injection H as <- <-. eapply pop_acquired_acct; eauto.
+  - (* WPopWait *)
+    injection H as <- <-.
+    eapply acct_worker_frame with (w := w) (p0 := WPopWait) (p := WPopBlocked false); eauto; st_simpl; auto.
+    now apply queued_set_same.
+  - (* WPopBlocked true *)
+    destruct (q_free s w) eqn:G; [|discriminate]. apply q_free_spec in G as [Hq _].
+    injection H as <- <-. eapply pop_acquired_acct; eauto.
+  - (* WPopUnlock *)
+    injection H as <- <-.
+    eapply acct_worker_frame with (w := w) (p0 := WPopUnlock t)
+      (p := match t with Some it => WExec it | None => WDone end); eauto; st_simpl; auto.
+    + destruct t; reflexivity.
+    + now apply queued_set_same.
+  - (* WExec *)
+    injection H as <- <-. eapply acct_exec; eauto; reflexivity.
+Qed.
+
+Lemma step_acct t s s' evs : Acct s -> step t s = Some (s', evs) -> Acct s'.
+Proof.
+  intros A H. unfold step in H.
+  destruct (Nat.eqb t 0); [eapply step_main_acct; eauto|].
+  destruct (Nat.leb t (nprods s)); [eapply step_prod_acct; eauto|].
+  destruct (Nat.leb t (nprods s + nq s)); [eapply step_worker_acct; eauto|].
+  destruct (Nat.leb t (nprods s + nq s + nq s)); [eapply step_spur_acct; eauto|discriminate].
+Qed.
+
+Theorem acct_reachable rc k counts (sched : list nat) :
+  Acct (fst (run step sched (init rc k counts, []))).
+Proof.
+  apply (run_invariant_state _ _ _ step Acct).
+  - intros s t s' ev. apply step_acct.
+  - apply acct_init.
+Qed.
+
+(* ------------------------------------------------------------------------------------------ *)
+(* group 2: mutex ownership, wake-ups, stop                                                    *)
+
+Record Own (s : st) : Prop := {
+  O_len : length (workers s) = nq s;
+  O_m : forall q, holdsM (mainpc s) q = true -> q < nq s /\ qown (getq s q) = Some 0;
+  O_p : forall x n pc q, nth_error (prods s) x = Some (n, pc) -> holdsP pc q = true ->
+        q < nq s /\ qown (getq s q) = Some (S x);
+  O_w : forall w pc q, nth_error (workers s) w = Some pc -> holdsW w pc q = true ->
+        q < nq s /\ qown (getq s q) = Some (worker_tid s w);
+  O_wait : forall w, nth_error (workers s) w = Some WPopWait ->
+           qitems (getq s w) = [] /\ qstop (getq s w) = false;
+  O_blocked : forall w, nth_error (workers s) w = Some (WPopBlocked false) ->
+              (qitems (getq s w) = [] \/ exists x n j, nth_error (prods s) x = Some (n, PNotify j w)) /\
+              (qstop (getq s w) = false \/ exists d, mainpc s = MStopNotify d w);
+  O_ret : forall w, nth_error (workers s) w = Some (WPopUnlock None) ->
+          qitems (getq s w) = [] /\ qstop (getq s w) = true;
+  O_done : forall w, nth_error (workers s) w = Some WDone ->
+           qstop (getq s w) = true /\ incl (qitems (getq s w)) (late s);
+  O_race : race s = false -> forall q, q < nq s -> qstop (getq s q) = true -> all_prods_done s = true;
+  O_late : race s = false -> late s = [];
+  O_d : race s = false ->
+        match mainpc s with MStopLock d _ | MStopNotify d _ | MStopUnlock d _ => d = true | _ => True end;
+  O_join : forall i, mainpc s = MJoin i -> forall w, w < i -> nth_error (workers s) w = Some WDone;
+  O_mdone : mainpc s = MDone -> forall w, w < nq s -> nth_error (workers s) w = Some WDone
+}.
+
+Lemma own_init rc k counts : Own (init rc k counts).
+Proof. destruct (inv_init rc k counts). constructor; auto. intros _. exact I. Qed.
+
+Lemma getq_set_same_fields s q x q' :
+  qitems x = qitems (getq s q) -> qstop x = qstop (getq s q) ->
+  qitems (getq (set_queue s q x) q') = qitems (getq s q') /\ qstop (getq (set_queue s q x) q') = qstop (getq s q').
+Proof.
+  intros E1 E2. destruct (Nat.eq_dec q q') as [<-|Hne].
+  - destruct (Nat.lt_ge_cases q (nq s)) as [Hq|Hq].
+    + unfold getq at 1 3; cbn. rewrite nth_set_nth_eq by exact Hq. auto.
+    + unfold getq; cbn. rewrite set_nth_oob by exact Hq. auto.
+  - unfold getq; cbn. rewrite nth_set_nth_neq by exact Hne. auto.
+Qed.
+
+(* getq after an update of one queue *)
+Lemma getq_set_eq s q x : q < nq s -> getq (set_queue s q x) q = x.
+Proof. intros H. unfold getq; cbn. now apply nth_set_nth_eq. Qed.
+Lemma getq_set_neq s q q' x : q <> q' -> getq (set_queue s q x) q' = getq s q'.
+Proof. intros H. unfold getq; cbn. now apply nth_set_nth_neq. Qed.
+
+(* two different threads cannot both be recorded as owner of the same mutex *)
+Lemma owner_distinct s q q' t t' :
+  qown (getq s q) = Some t -> qown (getq s q') = Some t' -> t <> t' -> q <> q'.
+Proof. intros H1 H2 Hne ->. congruence. Qed.
+
+Lemma free_distinct s q q' t' : qown (getq s q) = None -> qown (getq s q') = Some t' -> q <> q'.
+Proof. intros H1 H2 ->. congruence. Qed.
+
+Ltac own_simpl :=
+  unfold worker_tid, nq, nprods, all_prods_done, getq in *;
+  cbn [race next queues mainpc prods workers enq late executed
+       set_queue set_main set_prod set_worker set_next add_enq add_executed] in *;
+  rewrite ?set_nth_length in *.
+
+Lemma nth_set_nth_fields (l : list qst) q q' x d :
+  qitems x = qitems (nth q l d) -> qstop x = qstop (nth q l d) ->
+  qitems (nth q' (set_nth q x l) d) = qitems (nth q' l d) /\
+  qstop (nth q' (set_nth q x l) d) = qstop (nth q' l d).
+Proof.
+  intros E1 E2. destruct (Nat.eq_dec q q') as [<-|Hne].
+  - destruct (Nat.lt_ge_cases q (length l)) as [Hq|Hq].
+    + rewrite nth_set_nth_eq by exact Hq. auto.
+    + rewrite set_nth_oob by exact Hq. auto.
+  - rewrite nth_set_nth_neq by exact Hne. auto.
+Qed.
+
+Lemma nth_set_nth_stop (l : list qst) q q' x d :
+  qstop x = qstop (nth q l d) -> qstop (nth q' (set_nth q x l) d) = qstop (nth q' l d).
+Proof.
+  intros E2. destruct (Nat.eq_dec q q') as [<-|Hne].
+  - destruct (Nat.lt_ge_cases q (length l)) as [Hq|Hq].
+    + rewrite nth_set_nth_eq by exact Hq. auto.
+    + rewrite set_nth_oob by exact Hq. auto.
+  - rewrite nth_set_nth_neq by exact Hne. auto.
+Qed.
+
+(* unlocking changes neither the items nor the stop flag of any queue *)
+Lemma unlock_fields (l : list qst) q q' d :
+  qitems (nth q' (set_nth q (unlockq (nth q l d)) l) d) = qitems (nth q' l d) /\
+  qstop (nth q' (set_nth q (unlockq (nth q l d)) l) d) = qstop (nth q' l d).
+Proof. apply nth_set_nth_fields; reflexivity. Qed.
+
+Lemma step_main_own s s' evs : Own s -> step_main s = Some (s', evs) -> Own s'.
+Proof.
+  intros O H. unfold step_main in H. destruct O.
+  destruct (mainpc s) as [i|d q|d q|d q|i|] eqn:Em.
+  - (* MSpawn *)
+    destruct (nth_error (workers s) i) as [[]|] eqn:Ew; try discriminate. injection H as <- <-.
+    assert (Hmain : forall q, holdsM (if Nat.eqb (S i) (nq s) then MStopLock (negb (race s)) 0 else MSpawn (S i)) q = false).
+    { intros q. destruct (Nat.eqb (S i) (nq s)); reflexivity. }
+    constructor; own_simpl; auto.
+    + intros q Hh. unfold nq in Hmain. rewrite Hmain in Hh. discriminate.
+    + intros w pc q Hn Hh. apply nth_error_set_nth in Hn as [(<- & -> & _)|(Hne & Hn)]; [discriminate|eauto].
+    + intros w Hn. apply nth_error_set_nth in Hn as [(<- & E & _)|(Hne & Hn)]; [discriminate|eauto].
+    + intros w Hn. apply nth_error_set_nth in Hn as [(<- & E & _)|(Hne & Hn)]; [discriminate|].
+      destruct (O_blocked0 w Hn) as [H1 [H2|[d0 H2]]]; [auto|discriminate].
+    + intros w Hn. apply nth_error_set_nth in Hn as [(<- & E & _)|(Hne & Hn)]; [discriminate|eauto].
+    + intros w Hn. apply nth_error_set_nth in Hn as [(<- & E & _)|(Hne & Hn)]; [discriminate|eauto].
+    + intros Hr. destruct (length (queues s)) eqn:El; [exact I|]. destruct (Nat.eqb i n); [|exact I].
+      rewrite Hr. reflexivity.
+    + intros i0 E. destruct (length (queues s)) eqn:El; [discriminate|]. destruct (Nat.eqb i n); discriminate.
+    + intros E. destruct (length (queues s)) eqn:El; [discriminate|]. destruct (Nat.eqb i n); discriminate.
+  - (* MStopLock *)
+    destruct (q_free s q && (negb d || all_prods_done s)) eqn:G; [|discriminate].
+    apply andb_true_iff in G as [G Gd]. apply q_free_spec in G as [Hq Hfree]. injection H as <- <-.
+    constructor; own_simpl; auto.
+    + intros q' Hh. cbn in Hh. apply Nat.eqb_eq in Hh as ->. split; [exact Hq|]. now rewrite nth_set_nth_eq.
+    + intros x0 n pc q' Hn Hh. destruct (O_p0 _ _ _ _ Hn Hh) as [Hq' Ho]. split; [exact Hq'|].
+      rewrite nth_set_nth_neq; [exact Ho|]. intros ->. congruence.
+    + intros w pc q' Hn Hh. destruct (O_w0 _ _ _ Hn Hh) as [Hq' Ho]. split; [exact Hq'|].
+      rewrite nth_set_nth_neq; [exact Ho|]. intros ->. congruence.
+    + intros w Hn. destruct (O_w0 w WPopWait w Hn) as [_ Ho]; [cbn; apply Nat.eqb_refl|].
+      rewrite nth_set_nth_neq; [auto|]. intros ->. congruence.
+    + intros w Hn. destruct (O_blocked0 w Hn) as [H1 H2]. destruct (Nat.eq_dec q w) as [->|Hne].
+      * rewrite nth_set_nth_eq by exact Hq. cbn. split; [exact H1|]. right. eauto.
+      * rewrite nth_set_nth_neq by exact Hne. split; [exact H1|]. destruct H2 as [H2|[d0 H2]]; [auto|discriminate].
+    + intros w Hn. destruct (O_w0 w (WPopUnlock None) w Hn) as [_ Ho]; [cbn; apply Nat.eqb_refl|].
+      rewrite nth_set_nth_neq; [auto|]. intros ->. congruence.
+    + intros w Hn. destruct (O_done0 w Hn) as [H1 H2]. destruct (Nat.eq_dec q w) as [->|Hne].
+      * rewrite nth_set_nth_eq by exact Hq. cbn. auto.
+      * rewrite nth_set_nth_neq by exact Hne. auto.
+    + intros Hr q' Hq' Hs. specialize (O_d0 Hr). cbn in O_d0. subst d. cbn in Gd.
+      destruct (Nat.eq_dec q q') as [->|Hne]; [exact Gd|].
+      rewrite nth_set_nth_neq in Hs by exact Hne. eauto.
+    + intros i E; discriminate.
+    + discriminate.
+  - (* MStopNotify *)
+    injection H as <- <-. destruct (notify_other s q) as (Er & _ & Eq & _ & Ep & _ & El & _).
+    pose proof (notify_len s q) as Elen.
+    constructor; own_simpl; rewrite ?Er, ?Eq, ?Ep, ?El, ?Elen in *; auto.
+    + intros w pc q' Hn Hh. apply notify_nth in Hn as (pc0 & Hn & ->).
+      apply (O_w0 w pc0 q' Hn). destruct (Nat.eqb w q); [now rewrite wake_holds in Hh|exact Hh].
+    + intros w Hn. apply notify_nth_inv in Hn as [Hn _]; [auto|discriminate].
+    + intros w Hn. apply notify_nth_inv in Hn as [Hn Hwq]; [|discriminate]. specialize (Hwq eq_refl).
+      destruct (O_blocked0 w Hn) as [H1 [H2|[d0 H2]]]; split; auto. injection H2 as _ E. congruence.
+    + intros w Hn. apply notify_nth_inv in Hn as [Hn _]; [auto|discriminate].
+    + intros w Hn. apply notify_nth_inv in Hn as [Hn _]; [auto|discriminate].
+    + intros i E; discriminate.
+    + discriminate.
+  - (* MStopUnlock *)
+    injection H as <- <-.
+    destruct (O_m0 q) as [Hq Hown]; [cbn; apply Nat.eqb_refl|].
+    set (nxt := if Nat.eqb (S q) (nq s) then (if d then MJoin 0 else MStopLock true 0) else MStopLock d (S q)).
+    assert (Hnh : forall q', holdsM nxt q' = false).
+    { intros q'. unfold nxt. destruct (Nat.eqb (S q) (nq s)); [destruct d|]; reflexivity. }
+    constructor; own_simpl; fold nxt; auto.
+    + intros q' Hh. rewrite Hnh in Hh. discriminate.
+    + intros x0 n pc q' Hn Hh. destruct (O_p0 _ _ _ _ Hn Hh) as [Hq' Ho]. split; [exact Hq'|].
+      rewrite nth_set_nth_neq; [exact Ho|]. intros ->. congruence.
+    + intros w pc q' Hn Hh. destruct (O_w0 _ _ _ Hn Hh) as [Hq' Ho]. split; [exact Hq'|].
+      rewrite nth_set_nth_neq; [exact Ho|]. intros ->. rewrite Hown in Ho. injection Ho as Ho. lia.
+    + intros w Hn. destruct (unlock_fields (queues s) q w {| qown := Some 0; qitems := []; qstop := true |}) as [-> ->]. auto.
+    + intros w Hn. destruct (unlock_fields (queues s) q w {| qown := Some 0; qitems := []; qstop := true |}) as [-> ->].
+      destruct (O_blocked0 w Hn) as [H1 [H2|[d0 H2]]]; [auto|discriminate].
+    + intros w Hn. destruct (unlock_fields (queues s) q w {| qown := Some 0; qitems := []; qstop := true |}) as [-> ->]. auto.
+    + intros w Hn. destruct (unlock_fields (queues s) q w {| qown := Some 0; qitems := []; qstop := true |}) as [-> ->]. auto.
+    + intros Hr q' Hq' Hs.
+      destruct (unlock_fields (queues s) q q' {| qown := Some 0; qitems := []; qstop := true |}) as [_ E].
+      rewrite E in Hs. eauto.
+    + intros Hr. specialize (O_d0 Hr). subst nxt. cbn in O_d0. subst d.
+      match goal with |- context [if ?b then _ else _] => destruct b end; cbn; auto.
+    + intros i E w Hw. unfold nxt in E.
+      match type of E with context [if ?b then _ else _] => destruct b end; [destruct d|]; try discriminate.
+      injection E as <-. lia.
+    + unfold nxt. match goal with |- context [if ?b then _ else _] => destruct b end; [destruct d|]; discriminate.
+  - (* MJoin *)
+    destruct (nth_error (workers s) i) as [[]|] eqn:Ew; try discriminate. injection H as <- <-.
+    assert (Hjoin : forall w, w < S i -> nth_error (workers s) w = Some WDone).
+    { intros w Hw. destruct (Nat.eq_dec w i) as [->|]; [exact Ew|]. apply (O_join0 i eq_refl). lia. }
+    constructor; own_simpl; auto.
+    + intros q' Hh. match type of Hh with context [if ?b then _ else _] => destruct b end; discriminate.
+    + intros w Hn. destruct (O_blocked0 w Hn) as [H1 [H2|[d0 H2]]]; [auto|discriminate].
+    + intros Hr. match goal with |- context [if ?b then _ else _] => destruct b end; exact I.
+    + intros i0 E w Hw. match type of E with context [if ?b then _ else _] => destruct b end; [discriminate|].
+      injection E as <-. auto.
+    + intros E w Hw. match type of E with context [if ?b then _ else _] => destruct b eqn:Eb end; [|discriminate].
+      apply Hjoin. destruct (length (queues s)) as [|m]; [lia|]. apply Nat.eqb_eq in Eb. lia.
+  - discriminate.
+Qed.
+
+Ltac wsplit Hn := apply nth_error_set_nth in Hn as [(<- & Hn & _)|(? & Hn)].
+
+Lemma step_spur_own w s s' evs : Own s -> step_spur w s = Some (s', evs) -> Own s'.
+Proof.
+  intros O H. unfold step_spur in H. destruct O.
+  destruct (nth_error (workers s) w) as [[| | | | |[]| | |]|] eqn:Ew; try discriminate. injection H as <- <-.
+  constructor; own_simpl; auto.
+  - intros w0 pc q Hn Hh. wsplit Hn; [subst; discriminate|eauto].
+  - intros w0 Hn. wsplit Hn; [discriminate|eauto].
+  - intros w0 Hn. wsplit Hn; [discriminate|eauto].
+  - intros w0 Hn. wsplit Hn; [discriminate|eauto].
+  - intros w0 Hn. wsplit Hn; [discriminate|eauto].
+  - intros i E w0 Hw. rewrite nth_error_set_nth_neq; [eauto|]. intros ->.
+    specialize (O_join0 i E w0 Hw). congruence.
+  - intros E w0 Hw. rewrite nth_error_set_nth_neq; [eauto|]. intros ->.
+    specialize (O_mdone0 E w0 Hw). congruence.
+Qed.
+
+Lemma all_done_contra (l : list (nat * ppc)) x n pc :
+  forallb prod_done l = true -> nth_error l x = Some (n, pc) ->
+  (match pc with PFetch j => j < n | _ => True end) -> False.
+Proof. intros H Hn Hp. destruct (all_done_nth l x n pc H Hn) as (j & -> & Hle). lia. Qed.
+
+(* a producer moves between two program counters that hold no mutex (and is not finished) *)
+Lemma own_prod_pc s x n pc pc' nx :
+  Own s -> nth_error (prods s) x = Some (n, pc) ->
+  (forall q, holdsP pc q = false) -> (forall q, holdsP pc' q = false) ->
+  (match pc with PFetch j => j < n | _ => True end) ->
+  Own (set_prod (set_next s nx) x (n, pc')).
+Proof.
+  intros O En Hh Hh' Hnd. destruct O. constructor; own_simpl; auto.
+  - intros x0 n0 pc0 q Hn Hhq. wsplit Hn; [injection Hn as -> ->; rewrite Hh' in Hhq; discriminate|eauto].
+  - intros w Hn. destruct (O_blocked0 w Hn) as [H1 H2]. split; [|exact H2].
+    destruct H1 as [H1|(x0 & n0 & j0 & Hn0)]; [auto|]. right. exists x0, n0, j0.
+    rewrite nth_error_set_nth_neq; [exact Hn0|]. intros ->. rewrite En in Hn0. injection Hn0 as _ ->.
+    specialize (Hh w). cbn in Hh. rewrite Nat.eqb_refl in Hh. discriminate.
+  - intros Hr q Hq Hs. exfalso. eapply all_done_contra; eauto.
+Qed.
+
+(* a producer acquires the free mutex q and pushes its item *)
+Lemma own_push s x n pc j q it :
+  Own s -> nth_error (prods s) x = Some (n, pc) -> (forall q', holdsP pc q' = false) ->
+  (match pc with PFetch j => j < n | _ => True end) ->
+  q < nq s -> qown (getq s q) = None ->
+  let xq := getq s q in
+  let pc' := if match qitems xq with [] => true | _ => false end then PNotify j q else PUnlock j q in
+  Own (set_prod (add_enq (set_queue s q {| qown := Some (S x); qitems := qitems xq ++ [it]; qstop := qstop xq |})
+                         it (qstop xq)) x (n, pc')).
+Proof.
+  intros O En Hh Hnd Hq Hfree xq pc'. destruct O.
+  assert (Hx : x < length (prods s)) by (eapply nth_error_lt; eauto).
+  assert (Hpc' : forall q', holdsP pc' q' = Nat.eqb q' q).
+  { intros q'. unfold pc'. destruct (qitems xq); reflexivity. }
+  assert (Hnotdone : forallb prod_done (prods s) = true -> False).
+  { intros Hd. eapply all_done_contra; eauto. }
+  subst xq. constructor; own_simpl; auto.
+  - intros q' Hm. destruct (O_m0 _ Hm) as [Hq' Ho]. split; [exact Hq'|].
+    rewrite nth_set_nth_neq; [exact Ho|]. intros ->. congruence.
+  - intros x0 n0 pc0 q' Hn Hhq. wsplit Hn.
+    + injection Hn as -> ->. rewrite Hpc' in Hhq. apply Nat.eqb_eq in Hhq as ->.
+      split; [exact Hq|]. now rewrite nth_set_nth_eq.
+    + destruct (O_p0 _ _ _ _ Hn Hhq) as [Hq' Ho]. split; [exact Hq'|].
+      rewrite nth_set_nth_neq; [exact Ho|]. intros ->. congruence.
+  - intros w pc0 q' Hn Hhq. destruct (O_w0 _ _ _ Hn Hhq) as [Hq' Ho]. split; [exact Hq'|].
+    rewrite nth_set_nth_neq; [exact Ho|]. intros ->. congruence.
+  - intros w Hn. destruct (O_w0 w WPopWait w Hn) as [_ Ho]; [cbn; apply Nat.eqb_refl|].
+    rewrite nth_set_nth_neq; [auto|]. intros ->. congruence.
+  - intros w Hn. destruct (O_blocked0 w Hn) as [H1 H2]. destruct (Nat.eq_dec q w) as [->|Hne].
+    + rewrite nth_set_nth_eq by exact Hq. cbn [qitems qstop]. split; [|exact H2]. right.
+      destruct H1 as [H1|(x0 & n0 & j0 & Hn0)].
+      * exists x, n, j. rewrite nth_error_set_nth_eq by exact Hx. unfold pc'. now rewrite H1.
+      * exists x0, n0, j0. rewrite nth_error_set_nth_neq; [exact Hn0|]. intros ->.
+        rewrite En in Hn0. injection Hn0 as _ ->. specialize (Hh w). cbn in Hh. rewrite Nat.eqb_refl in Hh. discriminate.
+    + rewrite nth_set_nth_neq by exact Hne. split; [|exact H2].
+      destruct H1 as [H1|(x0 & n0 & j0 & Hn0)]; [auto|]. right.
+      exists x0, n0, j0. rewrite nth_error_set_nth_neq; [exact Hn0|]. intros ->.
+      rewrite En in Hn0. injection Hn0 as _ ->. specialize (Hh w). cbn in Hh. rewrite Nat.eqb_refl in Hh. discriminate.
+  - intros w Hn. destruct (O_w0 w (WPopUnlock None) w Hn) as [_ Ho]; [cbn; apply Nat.eqb_refl|].
+    rewrite nth_set_nth_neq; [auto|]. intros ->. congruence.
+  - intros w Hn. destruct (O_done0 w Hn) as [H1 H2]. destruct (Nat.eq_dec q w) as [->|Hne].
+    + rewrite nth_set_nth_eq by exact Hq. cbn [qitems qstop]. split; [exact H1|]. rewrite H1.
+      apply incl_app; [apply incl_appl; exact H2|apply incl_appr, incl_refl].
+    + rewrite nth_set_nth_neq by exact Hne. split; [exact H1|].
+      destruct (qstop (nth q (queues s) _)); [apply incl_appl|]; exact H2.
+  - intros Hr q' Hq' Hs. exfalso. apply Hnotdone.
+    rewrite nth_set_nth_stop in Hs by reflexivity. eauto.
+  - intros Hr. destruct (qstop (nth q (queues s) _)) eqn:Es; [|auto]. exfalso. apply Hnotdone. eauto.
+Qed.
+
+Lemma set_next_same s : set_next s (next s) = s.
+Proof. destruct s; reflexivity. Qed.
+
+Lemma step_prod_own x s s' evs : Own s -> step_prod x s = Some (s', evs) -> Own s'.
+Proof.
+  intros O H. unfold step_prod in H.
+  destruct (nth_error (prods s) x) as [[n pc]|] eqn:En; [|discriminate].
+  assert (Hx : x < length (prods s)) by (eapply nth_error_lt; eauto).
+  destruct pc as [j|j start i|j start|j q|j q].
+  - (* PFetch *)
+    destruct (Nat.ltb_spec j n) as [Hj|]; [|discriminate]. cbn [andb] in H.
+    destruct (Nat.ltb 0 (nq s) && negb match mainpc s with MSpawn _ => true | _ => false end); [|discriminate].
+    injection H as <- <-. eapply own_prod_pc; eauto.
+  - (* PTry *)
+    destruct (q_free s ((start + i) mod nq s)) eqn:G.
+    + apply q_free_spec in G as [Hq Hfree]. unfold do_push in H. injection H as <- <-.
+      eapply own_push; eauto. exact I.
+    + injection H as <- <-. rewrite <- (set_next_same s) at 1. eapply own_prod_pc; eauto.
+      * intros q. match goal with |- context [if ?b then _ else _] => destruct b end; reflexivity.
+      * exact I.
+  - (* PPushLock *)
+    destruct (q_free s start) eqn:G; [|discriminate].
+    apply q_free_spec in G as [Hq Hfree]. unfold do_push in H. injection H as <- <-.
+    eapply own_push; eauto. exact I.
+  - (* PNotify *)
+    injection H as <- <-. destruct O.
+    destruct (notify_other s q) as (Er & _ & Eq & Em & Ep & _ & El & _).
+    pose proof (notify_len s q) as Elen.
+    constructor; own_simpl; rewrite ?Er, ?Eq, ?Ep, ?El, ?Elen, ?Em in *; auto.
+    + intros x0 n0 pc0 q' Hn Hh. wsplit Hn; [injection Hn as -> ->; eapply O_p0; eauto|eauto].
+    + intros w pc q' Hn Hh. apply notify_nth in Hn as (pc0 & Hn & ->).
+      apply (O_w0 w pc0 q' Hn). destruct (Nat.eqb w q); [now rewrite wake_holds in Hh|exact Hh].
+    + intros w Hn. apply notify_nth_inv in Hn as [Hn _]; [auto|discriminate].
+    + intros w Hn. apply notify_nth_inv in Hn as [Hn Hwq]; [|discriminate]. specialize (Hwq eq_refl).
+      destruct (O_blocked0 w Hn) as [H1 H2]. split; [|exact H2].
+      destruct H1 as [H1|(x0 & n0 & j0 & Hn0)]; [auto|]. right. exists x0, n0, j0.
+      rewrite nth_error_set_nth_neq; [exact Hn0|]. intros ->. rewrite En in Hn0. injection Hn0 as _ _ E. congruence.
+    + intros w Hn. apply notify_nth_inv in Hn as [Hn _]; [auto|discriminate].
+    + intros w Hn. apply notify_nth_inv in Hn as [Hn _]; [auto|discriminate].
+    + intros Hr q' Hq' Hs. exfalso. eapply (all_done_contra (prods s) x n (PNotify j q)); eauto; exact I.
+    + intros i E w Hw. specialize (O_join0 i E w Hw).
+      rewrite notify_workers. destruct (nth_error (workers s) q) as [w0|] eqn:Ewq; [|exact O_join0].
+      destruct (Nat.eq_dec q w) as [->|Hne]; [|now rewrite nth_error_set_nth_neq].
+      rewrite Ewq in O_join0. injection O_join0 as ->. rewrite nth_error_set_nth_eq; [reflexivity|].
+      eapply nth_error_lt; eauto.
+    + intros E w Hw. specialize (O_mdone0 E w Hw).
+      rewrite notify_workers. destruct (nth_error (workers s) q) as [w0|] eqn:Ewq; [|exact O_mdone0].
+      destruct (Nat.eq_dec q w) as [->|Hne]; [|now rewrite nth_error_set_nth_neq].
+      rewrite Ewq in O_mdone0. injection O_mdone0 as ->. rewrite nth_error_set_nth_eq; [reflexivity|].
+      eapply nth_error_lt; eauto.
+  - (* PUnlock *)
+    injection H as <- <-. destruct O.
+    destruct (O_p0 x n (PUnlock j q) q En) as [Hq Hown]; [cbn; apply Nat.eqb_refl|].
+    constructor; own_simpl; auto.
+    + intros q' Hm. destruct (O_m0 _ Hm) as [Hq' Ho]. split; [exact Hq'|].
+      rewrite nth_set_nth_neq; [exact Ho|]. intros ->. congruence.
+    + intros x0 n0 pc0 q' Hn Hhq. wsplit Hn; [injection Hn as -> ->; discriminate|].
+      destruct (O_p0 _ _ _ _ Hn Hhq) as [Hq' Ho]. split; [exact Hq'|].
+      rewrite nth_set_nth_neq; [exact Ho|]. intros ->. rewrite Hown in Ho. injection Ho as Ho. congruence.
+    + intros w pc0 q' Hn Hhq. destruct (O_w0 _ _ _ Hn Hhq) as [Hq' Ho]. split; [exact Hq'|].
+      rewrite nth_set_nth_neq; [exact Ho|]. intros ->. rewrite Hown in Ho. injection Ho as Ho. lia.
+    + intros w Hn. destruct (unlock_fields (queues s) q w {| qown := Some 0; qitems := []; qstop := true |}) as [-> ->]. auto.
+    + intros w Hn. destruct (unlock_fields (queues s) q w {| qown := Some 0; qitems := []; qstop := true |}) as [-> ->].
+      destruct (O_blocked0 w Hn) as [H1 H2]. split; [|exact H2].
+      destruct H1 as [H1|(x0 & n0 & j0 & Hn0)]; [auto|]. right. exists x0, n0, j0.
+      rewrite nth_error_set_nth_neq; [exact Hn0|]. intros ->. rewrite En in Hn0. discriminate.
+    + intros w Hn. destruct (unlock_fields (queues s) q w {| qown := Some 0; qitems := []; qstop := true |}) as [-> ->]. auto.
+    + intros w Hn. destruct (unlock_fields (queues s) q w {| qown := Some 0; qitems := []; qstop := true |}) as [-> ->]. auto.
+    + intros Hr q' Hq' Hs. exfalso.
+      destruct (unlock_fields (queues s) q q' {| qown := Some 0; qitems := []; qstop := true |}) as [_ E].
+      rewrite E in Hs. eapply (all_done_contra (prods s) x n (PUnlock j q)); eauto; exact I.
+Qed.
+
+Definition dq : qst := {| qown := Some 0; qitems := []; qstop := true |}.
+
+(* a worker moves between two program counters that hold no mutex; no queue changes *)
+Lemma own_worker_pc s s' w pc0 pc' :
+  Own s -> nth_error (workers s) w = Some pc0 -> pc0 <> WDone ->
+  (forall q, holdsW w pc' q = false) -> pc' <> WPopBlocked false -> pc' <> WDone ->
+  race s' = race s -> queues s' = queues s -> mainpc s' = mainpc s -> prods s' = prods s ->
+  late s' = late s -> workers s' = set_nth w pc' (workers s) ->
+  Own s'.
+Proof.
+  intros O Ew Hnd Hh' Hb Hd Er Eq Em Ep El Ewk. destruct O.
+  assert (Hpw : pc' <> WPopWait) by (intros ->; specialize (Hh' w); cbn in Hh'; rewrite Nat.eqb_refl in Hh'; discriminate).
+  assert (Hpu : forall t, pc' <> WPopUnlock t) by (intros t ->; specialize (Hh' w); cbn in Hh'; rewrite Nat.eqb_refl in Hh'; discriminate).
+  constructor; own_simpl; rewrite ?Er, ?Eq, ?Em, ?Ep, ?El, ?Ewk in *; rewrite ?set_nth_length; auto.
+  - intros w0 pc q Hn Hh. wsplit Hn; [subst; rewrite Hh' in Hh; discriminate|eauto].
+  - intros w0 Hn. wsplit Hn; [congruence|eauto].
+  - intros w0 Hn. wsplit Hn; [congruence|eauto].
+  - intros w0 Hn. wsplit Hn; [exfalso; eapply Hpu; eauto|eauto].
+  - intros w0 Hn. wsplit Hn; [congruence|eauto].
+  - intros i E w0 Hw. rewrite nth_error_set_nth_neq; [eauto|]. intros ->.
+    specialize (O_join0 i E w0 Hw). congruence.
+  - intros E w0 Hw. rewrite nth_error_set_nth_neq; [eauto|]. intros ->.
+    specialize (O_mdone0 E w0 Hw). congruence.
+Qed.
+
+(* a worker acquires the free mutex q; it may remove the front item *)
+Lemma own_worker_acquire s w pc0 pc' q x :
+  Own s -> nth_error (workers s) w = Some pc0 -> pc0 <> WDone ->
+  q < nq s -> qown (getq s q) = None ->
+  qown x = Some (worker_tid s w) -> qstop x = qstop (getq s q) ->
+  (qitems x = qitems (getq s q) \/ exists it, qitems (getq s q) = it :: qitems x) ->
+  (forall q', holdsW w pc' q' = Nat.eqb q' q) -> pc' <> WPopBlocked false -> pc' <> WDone ->
+  (pc' = WPopWait -> qitems x = [] /\ qstop x = false) ->
+  (pc' = WPopUnlock None -> qitems x = [] /\ qstop x = true) ->
+  Own (set_worker (set_queue s q x) w pc').
+Proof.
+  intros O Ew Hnd Hq Hfree Hox Hsx Hix Hh' Hb Hd Hwait Hret. destruct O.
+  assert (Hsub : incl (qitems x) (qitems (getq s q))).
+  { destruct Hix as [->|[it ->]]; [apply incl_refl|apply incl_tl, incl_refl]. }
+  assert (Hnil : qitems (getq s q) = [] -> qitems x = []).
+  { intros E. destruct Hix as [->|[it E']]; [exact E|congruence]. }
+  constructor; own_simpl; auto.
+  - intros q' Hm. destruct (O_m0 _ Hm) as [Hq' Ho]. split; [exact Hq'|].
+    rewrite nth_set_nth_neq; [exact Ho|]. intros ->. congruence.
+  - intros x0 n0 pc q' Hn Hhq. destruct (O_p0 _ _ _ _ Hn Hhq) as [Hq' Ho]. split; [exact Hq'|].
+    rewrite nth_set_nth_neq; [exact Ho|]. intros ->. congruence.
+  - intros w0 pc q' Hn Hhq. wsplit Hn.
+    + subst pc. rewrite Hh' in Hhq. apply Nat.eqb_eq in Hhq as ->. split; [exact Hq|].
+      now rewrite nth_set_nth_eq.
+    + destruct (O_w0 _ _ _ Hn Hhq) as [Hq' Ho]. split; [exact Hq'|].
+      rewrite nth_set_nth_neq; [exact Ho|]. intros ->. congruence.
+  - intros w0 Hn. wsplit Hn.
+    + assert (Hqw : w = q).
+      { specialize (Hh' w). rewrite <- Hn in Hh'. cbn in Hh'. rewrite Nat.eqb_refl in Hh'. symmetry in Hh'.
+        now apply Nat.eqb_eq in Hh'. }
+      subst q. rewrite nth_set_nth_eq by exact Hq. apply Hwait. auto.
+    + destruct (O_w0 w0 WPopWait w0 Hn) as [_ Ho]; [cbn; apply Nat.eqb_refl|].
+      rewrite nth_set_nth_neq; [auto|]. intros ->. congruence.
+  - intros w0 Hn. wsplit Hn; [congruence|]. destruct (O_blocked0 w0 Hn) as [H1 H2].
+    destruct (Nat.eq_dec q w0) as [->|Hne].
+    + rewrite nth_set_nth_eq by exact Hq. rewrite Hsx. split; [|exact H2].
+      destruct H1 as [H1|H1]; [left; auto|right; exact H1].
+    + rewrite nth_set_nth_neq by exact Hne. auto.
+  - intros w0 Hn. wsplit Hn.
+    + assert (Hqw : w = q).
+      { specialize (Hh' w). rewrite <- Hn in Hh'. cbn in Hh'. rewrite Nat.eqb_refl in Hh'. symmetry in Hh'.
+        now apply Nat.eqb_eq in Hh'. }
+      subst q. rewrite nth_set_nth_eq by exact Hq. apply Hret. auto.
+    + destruct (O_w0 w0 (WPopUnlock None) w0 Hn) as [_ Ho]; [cbn; apply Nat.eqb_refl|].
+      rewrite nth_set_nth_neq; [auto|]. intros ->. congruence.
+  - intros w0 Hn. wsplit Hn; [congruence|]. destruct (O_done0 w0 Hn) as [H1 H2].
+    destruct (Nat.eq_dec q w0) as [->|Hne].
+    + rewrite nth_set_nth_eq by exact Hq. rewrite Hsx. split; [exact H1|].
+      eapply incl_tran; eauto.
+    + rewrite nth_set_nth_neq by exact Hne. auto.
+  - intros Hr q' Hq' Hs. rewrite nth_set_nth_stop in Hs by exact Hsx. eauto.
+  - intros i E w0 Hw. rewrite nth_error_set_nth_neq; [eauto|]. intros ->.
+    specialize (O_join0 i E w0 Hw). congruence.
+  - intros E w0 Hw. rewrite nth_error_set_nth_neq; [eauto|]. intros ->.
+    specialize (O_mdone0 E w0 Hw). congruence.
+Qed.
+
+(* a worker releases the mutex q it holds *)
+Lemma own_worker_release s w pc0 pc' q :
+  Own s -> nth_error (workers s) w = Some pc0 -> holdsW w pc0 q = true ->
+  (forall q', holdsW w pc' q' = false) ->
+  (pc' = WPopBlocked false -> pc0 = WPopWait) -> (pc' = WDone -> pc0 = WPopUnlock None) ->
+  Own (set_worker (set_queue s q (unlockq (getq s q))) w pc').
+Proof.
+  intros O Ew Hh Hh' Hb Hd. destruct O.
+  destruct (O_w0 _ _ _ Ew Hh) as [Hq Hown].
+  assert (Hnd : pc0 <> WDone) by (intros ->; discriminate).
+  assert (Hpw : pc' <> WPopWait) by (intros ->; specialize (Hh' w); cbn in Hh'; rewrite Nat.eqb_refl in Hh'; discriminate).
+  assert (Hpu : forall t, pc' <> WPopUnlock t) by (intros t ->; specialize (Hh' w); cbn in Hh'; rewrite Nat.eqb_refl in Hh'; discriminate).
+  constructor; own_simpl; auto.
+  - intros q' Hm. destruct (O_m0 _ Hm) as [Hq' Ho]. split; [exact Hq'|].
+    rewrite nth_set_nth_neq; [exact Ho|]. intros ->. rewrite Hown in Ho. injection Ho as Ho. lia.
+  - intros x0 n0 pc q' Hn Hhq. destruct (O_p0 _ _ _ _ Hn Hhq) as [Hq' Ho]. split; [exact Hq'|].
+    rewrite nth_set_nth_neq; [exact Ho|]. intros ->. rewrite Hown in Ho. injection Ho as Ho.
+    apply nth_error_lt in Hn. lia.
+  - intros w0 pc q' Hn Hhq. wsplit Hn; [subst pc; rewrite Hh' in Hhq; discriminate|].
+    destruct (O_w0 _ _ _ Hn Hhq) as [Hq' Ho]. split; [exact Hq'|].
+    rewrite nth_set_nth_neq; [exact Ho|]. intros ->. rewrite Hown in Ho. injection Ho as Ho. lia.
+  - intros w0 Hn. destruct (unlock_fields (queues s) q w0 dq) as [E1 E2]. unfold dq in *. rewrite E1, E2.
+    wsplit Hn; [congruence|eauto].
+  - intros w0 Hn. destruct (unlock_fields (queues s) q w0 dq) as [E1 E2]. unfold dq in *. rewrite E1, E2.
+    wsplit Hn; [|eauto].
+    symmetry in Hn. specialize (Hb Hn). subst pc0. destruct (O_wait0 w Ew) as [-> ->]. auto.
+  - intros w0 Hn. destruct (unlock_fields (queues s) q w0 dq) as [E1 E2]. unfold dq in *. rewrite E1, E2.
+    wsplit Hn; [exfalso; eapply Hpu; eauto|eauto].
+  - intros w0 Hn. destruct (unlock_fields (queues s) q w0 dq) as [E1 E2]. unfold dq in *. rewrite E1, E2.
+    wsplit Hn; [|eauto].
+    symmetry in Hn. specialize (Hd Hn). subst pc0. destruct (O_ret0 w Ew) as [-> ->]. split; [reflexivity|]. intros a [].
+  - intros Hr q' Hq' Hs. destruct (unlock_fields (queues s) q q' dq) as [_ E2]. unfold dq in *. rewrite E2 in Hs. eauto.
+  - intros i E w0 Hw. rewrite nth_error_set_nth_neq; [eauto|]. intros ->.
+    specialize (O_join0 i E w0 Hw). congruence.
+  - intros E w0 Hw. rewrite nth_error_set_nth_neq; [eauto|]. intros ->.
+    specialize (O_mdone0 E w0 Hw). congruence.
+Qed.
+
+Lemma holdsW_own_iff w pc q : (pc = WPopWait \/ exists t, pc = WPopUnlock t) -> holdsW w pc q = Nat.eqb q w.
+Proof. intros [->|[t ->]]; reflexivity. Qed.
+
+Lemma pop_acquired_own s w pc0 :
+  Own s -> nth_error (workers s) w = Some pc0 -> pc0 <> WDone -> w < nq s -> qown (getq s w) = None ->
+  Own (pop_acquired s w).
+Proof.
+  intros O Ew Hnd Hw Hfree. unfold pop_acquired. destruct (qitems (getq s w)) as [|it r] eqn:Eit.
+  - eapply own_worker_acquire; eauto; cbn; auto.
+    + intros q'. destruct (qstop (getq s w)); reflexivity.
+    + destruct (qstop (getq s w)); discriminate.
+    + destruct (qstop (getq s w)); discriminate.
+    + destruct (qstop (getq s w)) eqn:Es; [discriminate|]. auto.
+    + destruct (qstop (getq s w)) eqn:Es; [auto|discriminate].
+  - eapply own_worker_acquire; eauto; cbn; eauto; discriminate.
+Qed.
+
+Lemma step_worker_own w s s' evs : Own s -> step_worker w s = Some (s', evs) -> Own s'.
+Proof.
+  intros O H. unfold step_worker in H.
+  destruct (nth_error (workers s) w) as [pc|] eqn:Ew; [|discriminate].
+  destruct pc as [|i|i q t| | |[]|t|t|]; try discriminate.
+  - (* WScan *)
+    destruct (q_free s ((w + i) mod nq s)) eqn:G.
+    + apply q_free_spec in G as [Hq Hfree].
+      destruct (qitems (getq s ((w + i) mod nq s))) as [|it r] eqn:Eit; injection H as <- <-.
+      * eapply own_worker_acquire; eauto; cbn; auto; discriminate.
+      * eapply own_worker_acquire; eauto; cbn; eauto; discriminate.
+    + injection H as <- <-.
+      eapply own_worker_pc with (w := w) (pc0 := WScan i)
+        (pc' := if Nat.eqb (S i) (nq s) then WPopLock else WScan (S i)); eauto; try discriminate.
+      * intros q. match goal with |- context [if ?b then _ else _] => destruct b end; reflexivity.
+      * match goal with |- context [if ?b then _ else _] => destruct b end; discriminate.
+      * match goal with |- context [if ?b then _ else _] => destruct b end; discriminate.
+  - (* WScanUnlock *)
+    injection H as <- <-. eapply own_worker_release; eauto.
+    + cbn. apply Nat.eqb_refl.
+    + intros q'. destruct t; [reflexivity|]. match goal with |- context [if ?b then _ else _] => destruct b end; reflexivity.
+    + destruct t; [discriminate|]. match goal with |- context [if ?b then _ else _] => destruct b end; discriminate.
+    + destruct t; [discriminate|]. match goal with |- context [if ?b then _ else _] => destruct b end; discriminate.
+  - (* WPopLock *)
+    destruct (q_free s w) eqn:G; [|discriminate]. apply q_free_spec in G as [Hq Hfree].
+    injection H as <- <-. eapply pop_acquired_own; eauto. discriminate.
+  - (* WPopWait *)
+    injection H as <- <-. eapply own_worker_release; eauto; try discriminate.
+    cbn. apply Nat.eqb_refl.
+  - (* WPopBlocked true *)
+    destruct (q_free s w) eqn:G; [|discriminate]. apply q_free_spec in G as [Hq Hfree].
+    injection H as <- <-. eapply pop_acquired_own; eauto. discriminate.
+  - (* WPopUnlock *)
+    injection H as <- <-. eapply own_worker_release; eauto.
+    + cbn. apply Nat.eqb_refl.
+    + intros q'. destruct t; reflexivity.
+    + destruct t; discriminate.
+    + destruct t; [discriminate|reflexivity].
+  - (* WExec *)
+    injection H as <- <-.
+    eapply own_worker_pc with (w := w) (pc0 := WExec t) (pc' := WScan 0); eauto; try discriminate; reflexivity.
+Qed.
+
+Lemma step_own t s s' evs : Own s -> step t s = Some (s', evs) -> Own s'.
+Proof.
+  intros A H. unfold step in H.
+  destruct (Nat.eqb t 0); [eapply step_main_own; eauto|].
+  destruct (Nat.leb t (nprods s)); [eapply step_prod_own; eauto|].
+  destruct (Nat.leb t (nprods s + nq s)); [eapply step_worker_own; eauto|].
+  destruct (Nat.leb t (nprods s + nq s + nq s)); [eapply step_spur_own; eauto|discriminate].
+Qed.
+
+Theorem own_reachable rc k counts (sched : list nat) :
+  Own (fst (run step sched (init rc k counts, []))).
+Proof.
+  apply (run_invariant_state _ _ _ step Own).
+  - intros s t s' ev. apply step_own.
+  - apply own_init.
+Qed.
+
+(* ------------------------------------------------------------------------------------------ *)
+(* traces                                                                                      *)
+
+Definition enqs (tr : list ev) : list item :=
+  flat_map (fun e => match e with EEnq _ it => [it] | _ => [] end) tr.
+Definition runs (tr : list ev) : list (item * nat) :=
+  flat_map (fun e => match e with ERun it w => [(it, w)] | _ => [] end) tr.
+
+Lemma notify_ghost s q : enq (notify s q) = enq s /\ executed (notify s q) = executed s.
+Proof. destruct (notify_other s q) as (_ & _ & _ & _ & _ & E1 & _ & E2). auto. Qed.
+
+Lemma step_ghost t s s' evs :
+  step t s = Some (s', evs) -> enq s' = enq s ++ enqs evs /\ executed s' = executed s ++ runs evs.
+Proof.
+  unfold step.
+  destruct (Nat.eqb t 0).
+  { unfold step_main. destruct (mainpc s) as [i|d q|d q|d q|i|]; try discriminate.
+    - destruct (nth_error (workers s) i) as [[]|]; try discriminate. intros H; injection H as <- <-; cbn; now rewrite !app_nil_r.
+    - destruct (q_free s q && (negb d || all_prods_done s)); [|discriminate]. intros H; injection H as <- <-; cbn; now rewrite !app_nil_r.
+    - intros H; injection H as <- <-; cbn. destruct (notify_ghost s q) as [-> ->]. now rewrite !app_nil_r.
+    - intros H; injection H as <- <-; cbn; now rewrite !app_nil_r.
+    - destruct (nth_error (workers s) i) as [[]|]; try discriminate. intros H; injection H as <- <-; cbn; now rewrite !app_nil_r. }
+  destruct (Nat.leb t (nprods s)).
+  { unfold step_prod, do_push. destruct (nth_error (prods s) (pred t)) as [[n [j|j st0 i|j st0|j q|j q]]|]; try discriminate.
+    - destruct (Nat.ltb j n && Nat.ltb 0 (nq s) && negb match mainpc s with MSpawn _ => true | _ => false end); [|discriminate].
+      intros H; injection H as <- <-; cbn; now rewrite !app_nil_r.
+    - destruct (q_free s ((st0 + i) mod nq s)); intros H; injection H as <- <-; cbn; now rewrite ?app_nil_r.
+    - destruct (q_free s st0); [|discriminate]. intros H; injection H as <- <-; cbn; now rewrite ?app_nil_r.
+    - intros H; injection H as <- <-; cbn. destruct (notify_ghost s q) as [-> ->]. now rewrite !app_nil_r.
+    - intros H; injection H as <- <-; cbn; now rewrite !app_nil_r. }
+  destruct (Nat.leb t (nprods s + nq s)).
+  { unfold step_worker, pop_acquired. set (w := t - S (nprods s)).
+    destruct (nth_error (workers s) w) as [[|i|i q t0| | |[]|t0|t0|]|]; try discriminate.
+    - destruct (q_free s ((w + i) mod nq s)); [destruct (qitems (getq s ((w + i) mod nq s)))|];
+        intros H; injection H as <- <-; cbn; now rewrite !app_nil_r.
+    - intros H; injection H as <- <-; cbn; now rewrite !app_nil_r.
+    - destruct (q_free s w); [|discriminate]. destruct (qitems (getq s w));
+        intros H; injection H as <- <-; cbn; now rewrite !app_nil_r.
+    - intros H; injection H as <- <-; cbn; now rewrite !app_nil_r.
+    - destruct (q_free s w); [|discriminate]. destruct (qitems (getq s w));
+        intros H; injection H as <- <-; cbn; now rewrite !app_nil_r.
+    - intros H; injection H as <- <-; cbn; now rewrite !app_nil_r.
+    - intros H; injection H as <- <-; cbn; now rewrite ?app_nil_r. }
+  destruct (Nat.leb t (nprods s + nq s + nq s)); [|discriminate].
+  unfold step_spur. destruct (nth_error (workers s) (t - S (nprods s + nq s))) as [[| | | | |[]| | |]|]; try discriminate.
+  intros H; injection H as <- <-; cbn; now rewrite !app_nil_r.
+Qed.
+
+Definition TInv (c : st * list ev) : Prop :=
+  enqs (snd c) = enq (fst c) /\ runs (snd c) = executed (fst c).
+
+Theorem tinv_reachable rc k counts (sched : list nat) :
+  TInv (run step sched (init rc k counts, [])).
+Proof.
+  apply (run_invariant _ _ _ step TInv).
+  - intros c t s' ev (H1 & H2) H. apply step_ghost in H as (G1 & G2).
+    unfold TInv, enqs, runs in *; cbn [fst snd]. rewrite !flat_map_app, H1, H2, G1, G2. auto.
+  - split; reflexivity.
+Qed.
+
+(* ------------------------------------------------------------------------------------------ *)
+(* theorems                                                                                    *)
+
+Lemma flat_map_nil {A B} (f : A -> list B) (l : list A) :
+  (forall i x, nth_error l i = Some x -> f x = []) -> flat_map f l = [].
+Proof.
+  induction l as [|y r IH]; cbn; intros H; [reflexivity|].
+  rewrite (H 0 y eq_refl). cbn. apply IH. intros i x Hx. apply (H (S i) x Hx).
+Qed.
+
+Lemma params_step t s s' evs :
+  step t s = Some (s', evs) -> map fst (prods s') = map fst (prods s) /\ race s' = race s /\ nq s' = nq s.
+Proof.
+  unfold step.
+  destruct (Nat.eqb t 0).
+  { unfold step_main. destruct (mainpc s) as [i|d q|d q|d q|i|]; try discriminate.
+    - destruct (nth_error (workers s) i) as [[]|]; try discriminate. intros H; injection H as <- <-; cbn; auto.
+    - destruct (q_free s q && (negb d || all_prods_done s)); [|discriminate]. intros H; injection H as <- <-; unfold nq; cbn.
+      now rewrite set_nth_length.
+    - intros H; injection H as <- <-; cbn. destruct (notify_other s q) as (-> & _ & Eq & _ & -> & _). unfold nq; cbn. now rewrite Eq.
+    - intros H; injection H as <- <-; unfold nq; cbn; now rewrite set_nth_length.
+    - destruct (nth_error (workers s) i) as [[]|]; try discriminate. intros H; injection H as <- <-; cbn; auto. }
+  destruct (Nat.leb t (nprods s)).
+  { unfold step_prod, do_push. destruct (nth_error (prods s) (pred t)) as [[n [j|j st0 i|j st0|j q|j q]]|] eqn:En; try discriminate.
+    - destruct (Nat.ltb j n && Nat.ltb 0 (nq s) && negb match mainpc s with MSpawn _ => true | _ => false end); [|discriminate].
+      intros H; injection H as <- <-; unfold nq; cbn. split; [|auto]. revert En. generalize (pred t) as x. 
+      intros x En. clear -En. revert x En. induction (prods s) as [|y r IH]; intros [|x] En; cbn in *; try discriminate.
+      + injection En as ->. reflexivity.
+      + f_equal. eauto.
+    - destruct (q_free s ((st0 + i) mod nq s)); intros H; injection H as <- <-; unfold nq; cbn; rewrite ?set_nth_length;
+        (split; [|auto]); clear -En; revert En; generalize (pred t) as x; intros x; revert x;
+        induction (prods s) as [|y r IH]; intros [|x] En; cbn in *; try discriminate;
+        try (injection En as ->; reflexivity); f_equal; eauto.
+    - destruct (q_free s st0); [|discriminate]. intros H; injection H as <- <-; unfold nq; cbn; rewrite ?set_nth_length;
+        (split; [|auto]); clear -En; revert En; generalize (pred t) as x; intros x; revert x;
+        induction (prods s) as [|y r IH]; intros [|x] En; cbn in *; try discriminate;
+        try (injection En as ->; reflexivity); f_equal; eauto.
+    - intros H; injection H as <- <-; cbn. destruct (notify_other s q) as (Er & _ & Eq & _ & Ep & _). unfold nq; cbn.
+      rewrite Er, Eq, Ep. (split; [|auto]); clear -En; revert En; generalize (pred t) as x; intros x; revert x;
+        induction (prods s) as [|y r IH]; intros [|x] En; cbn in *; try discriminate;
+        try (injection En as ->; reflexivity); f_equal; eauto.
+    - intros H; injection H as <- <-; unfold nq; cbn; rewrite ?set_nth_length;
+        (split; [|auto]); clear -En; revert En; generalize (pred t) as x; intros x; revert x;
+        induction (prods s) as [|y r IH]; intros [|x] En; cbn in *; try discriminate;
+        try (injection En as ->; reflexivity); f_equal; eauto. }
+  destruct (Nat.leb t (nprods s + nq s)).
+  { unfold step_worker, pop_acquired. set (w := t - S (nprods s)).
+    destruct (nth_error (workers s) w) as [[|i|i q t0| | |[]|t0|t0|]|]; try discriminate.
+    - destruct (q_free s ((w + i) mod nq s)); [destruct (qitems (getq s ((w + i) mod nq s)))|];
+        intros H; injection H as <- <-; unfold nq; cbn; now rewrite ?set_nth_length.
+    - intros H; injection H as <- <-; unfold nq; cbn; now rewrite ?set_nth_length.
+    - destruct (q_free s w); [|discriminate]. destruct (qitems (getq s w));
+        intros H; injection H as <- <-; unfold nq; cbn; now rewrite ?set_nth_length.
+    - intros H; injection H as <- <-; unfold nq; cbn; now rewrite ?set_nth_length.
+    - destruct (q_free s w); [|discriminate]. destruct (qitems (getq s w));
+        intros H; injection H as <- <-; unfold nq; cbn; now rewrite ?set_nth_length.
+    - intros H; injection H as <- <-; unfold nq; cbn; now rewrite ?set_nth_length.
+    - intros H; injection H as <- <-; unfold nq; cbn; now rewrite ?set_nth_length. }
+  destruct (Nat.leb t (nprods s + nq s + nq s)); [|discriminate].
+  unfold step_spur. destruct (nth_error (workers s) (t - S (nprods s + nq s))) as [[| | | | |[]| | |]|]; try discriminate.
+  intros H; injection H as <- <-; cbn; auto.
+Qed.
+
+Lemma params_reachable rc k counts (sched : list nat) :
+  let s := fst (run step sched (init rc k counts, [])) in
+  map fst (prods s) = counts /\ race s = rc /\ nq s = k.
+Proof.
+  apply (run_invariant_state _ _ _ step (fun s => map fst (prods s) = counts /\ race s = rc /\ nq s = k)).
+  - intros s t s' ev (H1 & H2 & H3) H. apply params_step in H as (-> & -> & ->). auto.
+  - cbn. split; [|split; [reflexivity|]].
+    + rewrite map_map. cbn. apply map_id.
+    + unfold nq; cbn. apply repeat_length.
+Qed.
+
+Section Reach.
+  Variables (rc : bool) (k : nat) (counts : list nat) (sched : list nat).
+  Let c := run step sched (init rc k counts, []).
+  Let s := fst c.
+  Let tr := snd c.
+  Let HA : Acct s := acct_reachable rc k counts sched.
+  Let HO : Own s := own_reachable rc k counts sched.
+  Let HT : TInv c := tinv_reachable rc k counts sched.
+
+  (* nothing is lost or duplicated: every pushed item is completed, held by a worker, or queued *)
+  Theorem accounting :
+    Permutation (enqs tr) (map fst (runs tr) ++ flat_map inflight (workers s) ++ queued s) /\
+    NoDup (enqs tr).
+  Proof.
+    destruct HT as [H1 H2]. fold tr s in H1, H2. rewrite H1, H2. split; [apply (A_acct s HA)|apply (A_nodup s HA)].
+  Qed.
+
+  Theorem at_most_once : NoDup (map fst (runs tr)).
+  Proof.
+    destruct accounting as [P Hn]. eapply Permutation_NoDup in Hn; [|exact P].
+    clear -Hn. induction (map fst (runs tr)) as [|x l IH]; [constructor|].
+    cbn in Hn. inversion Hn as [|? ? Hx Hl]; subst. constructor; [|auto].
+    intros Hin. apply Hx. apply in_or_app. now left.
+  Qed.
+
+  Theorem enq_items_valid : forall p j,
+    In (p, j) (enqs tr) -> exists x n, p = S x /\ nth_error counts x = Some n /\ j < n.
+  Proof.
+    intros p j H. destruct HT as [H1 _]. fold tr s in H1. rewrite H1 in H.
+    apply (A_mem s HA) in H as (x & n & pc & -> & Hn & Hlt). exists x, n. split; [reflexivity|].
+    destruct (params_reachable rc k counts sched) as (Hc & _). fold c s in Hc. split.
+    - rewrite <- Hc, nth_error_map, Hn. reflexivity.
+    - destruct (A_bound s HA _ _ _ Hn) as [Hb _]. lia.
+  Qed.
+
+  (* pop() returns nullptr only when the worker's own queue is empty and stop was requested; a
+     worker that has returned leaves in its queue only items pushed after request_stop reached it *)
+  Theorem pop_null_only_if_empty_and_stopped : forall w,
+    (nth_error (workers s) w = Some (WPopUnlock None) -> qitems (getq s w) = [] /\ qstop (getq s w) = true) /\
+    (nth_error (workers s) w = Some WDone -> qstop (getq s w) = true /\ incl (qitems (getq s w)) (late s)).
+  Proof. intros w. split; [apply (O_ret s HO)|apply (O_done s HO)]. Qed.
+
+  (* no lost wake-up: a worker sleeping un-notified in pop() has an empty queue or the notify_one
+     of the producer that made it non-empty is pending (that producer holds the queue's mutex), and
+     stop is not requested on it or request_stop's notify_one is pending *)
+  Theorem no_lost_item : forall w,
+    nth_error (workers s) w = Some (WPopBlocked false) ->
+    (qitems (getq s w) = [] \/
+     exists x n j, nth_error (prods s) x = Some (n, PNotify j w) /\ qown (getq s w) = Some (S x)) /\
+    (qstop (getq s w) = false \/ exists d, mainpc s = MStopNotify d w /\ qown (getq s w) = Some 0).
+  Proof.
+    intros w Hw. destruct (O_blocked s HO w Hw) as [H1 H2]. split.
+    - destruct H1 as [H1|(x & n & j & Hn)]; [auto|]. right. exists x, n, j. split; [exact Hn|].
+      apply (O_p s HO x n (PNotify j w) w Hn). cbn. apply Nat.eqb_refl.
+    - destruct H2 as [H2|[d H2]]; [auto|]. right. exists d. split; [exact H2|].
+      apply (O_m s HO w). rewrite H2. cbn. apply Nat.eqb_refl.
+  Qed.
+
+  (* whoever is at a program point inside a critical section is the recorded owner of that mutex,
+     hence two threads are never inside critical sections of the same mutex *)
+  Theorem mutex_owner :
+    (forall q, holdsM (mainpc s) q = true -> qown (getq s q) = Some 0) /\
+    (forall x n pc q, nth_error (prods s) x = Some (n, pc) -> holdsP pc q = true -> qown (getq s q) = Some (S x)) /\
+    (forall w pc q, nth_error (workers s) w = Some pc -> holdsW w pc q = true ->
+                    qown (getq s q) = Some (worker_tid s w)).
+  Proof.
+    repeat split.
+    - intros q H. apply (O_m s HO q H).
+    - intros x n pc q Hn H. apply (O_p s HO x n pc q Hn H).
+    - intros w pc q Hn H. apply (O_w s HO w pc q Hn H).
+  Qed.
+
+  (* the destructor joins every thread: the owner is finished only after every worker returned *)
+  Theorem joined : mainpc s = MDone -> forall w, w < k -> nth_error (workers s) w = Some WDone.
+  Proof.
+    intros Hm w Hw. destruct (params_reachable rc k counts sched) as (_ & _ & Hk). fold c s in Hk.
+    apply (O_mdone s HO Hm). lia.
+  Qed.
+
+  Lemma final_workers_done :
+    final s = true -> (forall w pc, nth_error (workers s) w = Some pc -> pc = WDone) /\ all_prods_done s = true.
+  Proof.
+    unfold final. destruct (mainpc s) eqn:Em; try discriminate. rewrite andb_true_iff. intros [Hp Hw].
+    split; [|exact Hp]. intros w pc Hn. rewrite forallb_forall in Hw.
+    specialize (Hw pc (nth_error_In _ _ Hn)). destruct pc; try discriminate. reflexivity.
+  Qed.
+
+  (* when everything has finished: what was not completed is still queued, and was pushed into a
+     queue after request_stop had reached that queue *)
+  Theorem final_accounting :
+    final s = true ->
+    Permutation (enqs tr) (map fst (runs tr) ++ queued s) /\ incl (queued s) (late s) /\
+    forall x n j, nth_error counts x = Some n -> j < n -> In (S x, j) (enqs tr).
+  Proof.
+    intros Hf. destruct (final_workers_done Hf) as [Hw Hp].
+    destruct accounting as [P _].
+    assert (Hin : flat_map inflight (workers s) = []).
+    { apply flat_map_nil. intros i x Hx. now rewrite (Hw i x Hx). }
+    rewrite Hin in P. cbn in P. split; [exact P|]. split.
+    - unfold queued. intros it Hit. apply in_flat_map in Hit as (xq & Hxq & Hit).
+      apply In_nth_error in Hxq as [q Hq].
+      assert (Hql : q < nq s) by (eapply nth_error_lt; eauto).
+      assert (Hwq : nth_error (workers s) q = Some WDone).
+      { destruct (nth_error (workers s) q) as [pc|] eqn:E.
+        - now rewrite (Hw q pc E).
+        - apply nth_error_None in E. rewrite (O_len s HO) in E. lia. }
+      destruct (O_done s HO q Hwq) as [_ Hincl]. apply Hincl.
+      unfold getq. now rewrite (nth_error_nth _ _ _ _ Hq).
+    - intros x n j Hn Hj. destruct HT as [H1 _]. fold tr s in H1. rewrite H1. apply (A_mem s HA).
+      destruct (params_reachable rc k counts sched) as (Hc & _). fold c s in Hc.
+      rewrite <- Hc in Hn. apply nth_error_map_some in Hn as ([n' pc] & Hn & ->).
+      exists x, n', pc. repeat split; auto. cbn in Hj.
+      destruct (all_done_nth _ _ _ _ Hp Hn) as (j' & -> & Hle). cbn. lia.
+  Qed.
+
+  (* the destructor after the last start() returned (no racing request_stop): when everything has
+     finished every started operation has completed exactly once *)
+  Theorem exactly_once_final :
+    rc = false -> final s = true ->
+    Permutation (map fst (runs tr)) (enqs tr) /\ NoDup (map fst (runs tr)) /\
+    forall x n j, nth_error counts x = Some n -> j < n -> In (S x, j) (map fst (runs tr)).
+  Proof.
+    intros Hrc Hf. destruct (final_accounting Hf) as (P & Hincl & Hall).
+    destruct (params_reachable rc k counts sched) as (_ & Hr & _). fold c s in Hr.
+    assert (Hl : late s = []) by (apply (O_late s HO); congruence).
+    assert (Hq : queued s = []).
+    { rewrite Hl in Hincl. destruct (queued s) as [|a l]; [reflexivity|]. destruct (Hincl a). now left. }
+    rewrite Hq, app_nil_r in P. split; [now symmetry|]. split; [apply at_most_once|].
+    intros x n j Hn Hj. eapply Permutation_in; [exact P|]. eauto.
+  Qed.
+End Reach.
+
+(* a completion happens in a step of a worker thread of the pool *)
+Theorem completion_on_worker rc k counts (sched1 : list nat) t s' evs it w :
+  let s := fst (run step sched1 (init rc k counts, [])) in
+  step t s = Some (s', evs) -> In (ERun it w) evs -> t = worker_tid s w /\ w < nq s.
+Proof.
+  intros s H Hin. unfold step in H.
+  destruct (Nat.eqb t 0).
+  { exfalso. unfold step_main in H. destruct (mainpc s) as [i|d q|d q|d q|i|]; try discriminate.
+    - destruct (nth_error (workers s) i) as [[]|]; try discriminate. injection H as <- <-. cbn in Hin; intuition discriminate.
+    - destruct (q_free s q && (negb d || all_prods_done s)); [|discriminate]. injection H as <- <-. cbn in Hin; intuition discriminate.
+    - injection H as <- <-. cbn in Hin; intuition discriminate.
+    - injection H as <- <-. cbn in Hin; intuition discriminate.
+    - destruct (nth_error (workers s) i) as [[]|]; try discriminate. injection H as <- <-. cbn in Hin; intuition discriminate. }
+  destruct (Nat.leb_spec t (nprods s)) as [|Htp].
+  { exfalso. unfold step_prod, do_push in H.
+    destruct (nth_error (prods s) (pred t)) as [[n [j|j st0 i|j st0|j q|j q]]|]; try discriminate.
+    - destruct (Nat.ltb j n && Nat.ltb 0 (nq s) && negb match mainpc s with MSpawn _ => true | _ => false end); [|discriminate].
+      injection H as <- <-. cbn in Hin; intuition discriminate.
+    - destruct (q_free s ((st0 + i) mod nq s)); injection H as <- <-; cbn in Hin; intuition discriminate.
+    - destruct (q_free s st0); [|discriminate]. injection H as <- <-; cbn in Hin; intuition discriminate.
+    - injection H as <- <-. cbn in Hin; intuition discriminate.
+    - injection H as <- <-. cbn in Hin; intuition discriminate. }
+  destruct (Nat.leb_spec t (nprods s + nq s)) as [Htk|].
+  { unfold step_worker, pop_acquired in H. set (w0 := t - S (nprods s)) in *.
+    destruct (nth_error (workers s) w0) as [[|i|i q t0| | |[]|t0|t0|]|]; try discriminate.
+    - exfalso. destruct (q_free s ((w0 + i) mod nq s)); [destruct (qitems (getq s ((w0 + i) mod nq s)))|];
+        injection H as <- <-; cbn in Hin; intuition discriminate.
+    - exfalso. injection H as <- <-. cbn in Hin; intuition discriminate.
+    - exfalso. destruct (q_free s w0); [|discriminate]. destruct (qitems (getq s w0));
+        injection H as <- <-; cbn in Hin; intuition discriminate.
+    - exfalso. injection H as <- <-. cbn in Hin; intuition discriminate.
+    - exfalso. destruct (q_free s w0); [|discriminate]. destruct (qitems (getq s w0));
+        injection H as <- <-; cbn in Hin; intuition discriminate.
+    - exfalso. injection H as <- <-. cbn in Hin; intuition discriminate.
+    - injection H as <- <-. cbn in Hin. destruct Hin as [E|[]]. injection E as <- <-.
+      unfold worker_tid, w0. split; lia. }
+  exfalso. destruct (Nat.leb t (nprods s + nq s + nq s)); [|discriminate].
+  unfold step_spur in H. destruct (nth_error (workers s) (t - S (nprods s + nq s))) as [[| | | | |[]| | |]|]; try discriminate.
+  injection H as <- <-. cbn in Hin; intuition discriminate.
+Qed.
